@@ -413,6 +413,9 @@ pub enum BadOp {
 	DerefMissingRoot(u8, u16),
 	/// InsertTree with an unrepresentable node (more than 255 children)
 	OversizeInsert(u8, u16, u16),
+	/// ReferenceTree on a multitree column whose roots are not reference counted (and which is
+	/// not append-only, where the operation is a documented no-op); selector over live roots
+	RefTreeOnPlainMulti(u8, u16),
 }
 
 #[derive(Clone, Debug, Serialize, Deserialize, PartialEq, Eq, Hash)]
